@@ -464,7 +464,9 @@ def shared_neuron_shard(kind, mode, T):
         tr = make_trainer(kind, "hebbian", mode, False, identity_reduction)
         key = "lr_pre_pair" if kind == "triplet" else "lr_pre"
         tr.register_cell("a", layer.get_cell("a", "x"))
-        tr.register_cell("b", layer.get_cell("b", "x"), **{key: 2 * sn * LRN})
+        # (the triplet pre-side term is not linear in lr_pre_pair alone, so its second cell keeps the defaults: both cells then share
+        # every post-side monitor, slow traces included, and each is compared with the full rule)
+        tr.register_cell("b", layer.get_cell("b", "x"), **({} if kind == "triplet" else {key: 2 * sn * LRN}))
         for t in range(T):
             xa = torch.tensor([[h[t][0]] for h in hs], dtype=torch.bool)
             xb = torch.tensor([[h[t][1]] for h in hs], dtype=torch.bool)
@@ -479,11 +481,9 @@ def shared_neuron_shard(kind, mode, T):
         return tally
     post = torch.stack([spec.post_ref([[h[t][2]] for h in hs]) for t in range(T)], 0)
     sigs = torch.stack([signal_for(t, B, "stepalt") for t in range(T)], 0)
-    for ci, (cname, scale_pre) in enumerate((("a", 1.0), ("b", 2.0))):
+    for ci, (cname, scale_pre) in enumerate((("a", 1.0), ("b", 1.0 if kind == "triplet" else 2.0))):
         pre_syn = torch.stack([spec.pre_syn([[h[t][ci]] for h in hs]) for t in range(T)], 0)
         rp, rn = reference(kind, "hebbian", mode, dt, pre_syn, post, spec.delays_to_K(None, dt), sigs, gamma)
-        if kind == "triplet":
-            continue  # the triplet pre-side term is not linear in lr_pre_pair alone (slow traces): only the pair rules are compared
         exp = spec.to_weight_space((rp + scale_pre * rn).sum(0))
         acc = layer.get_connection(cname).updater.weight
         z = torch.zeros(B, *spec.wshape, dtype=F64)
@@ -588,9 +588,8 @@ def run(rep):
             jobs.append((applied_shard, (kind, sign, 3 if quick else 4)))
             if kind in ("stdp", "mstdp"):
                 jobs.append((applied_shard, (kind, sign, 3 if quick else 4, True)))
-        if kind != "triplet":
-            for mode in ("cumulative", "nearest"):
-                jobs.append((shared_neuron_shard, (kind, mode, 3)))
+        for mode in ("cumulative", "nearest"):
+            jobs.append((shared_neuron_shard, (kind, mode, 3)))
         for mode in ("cumulative", "nearest"):
             for dcfg in (None, ("frozen", 1), ("frozen", 2), ("delayed", 1), ("delayed", 2)):
                 for keepshape in (False, True):
